@@ -40,6 +40,18 @@ func v1Names(m map[string]string) map[string]*string {
 	return out
 }
 
+func v1Strs(ss []string) []*string {
+	if len(ss) == 0 {
+		return nil
+	}
+	out := []*string{}
+	for _, x := range ss {
+		x := x
+		out = append(out, &x)
+	}
+	return out
+}
+
 func strp(s string) *string {
 	if s == "" {
 		return nil
@@ -186,6 +198,10 @@ func (c *V1) Do(op Op) (out Outcome) {
 		return fin(err)
 	case OpGet:
 		in := &v1ddb.GetItemInput{TableName: aws.String(op.Table), Key: ItemToV1(op.Key), ProjectionExpression: strp(op.Proj), ExpressionAttributeNames: v1Names(op.Names)}
+		in.AttributesToGet = v1Strs(op.AttrsToGet)
+		if op.Consistent {
+			in.ConsistentRead = aws.Bool(true)
+		}
 		res, err := c.callGetItem(in)
 		o := fin(err)
 		if err == nil {
@@ -232,6 +248,11 @@ func (c *V1) Do(op Op) (out Outcome) {
 		if !op.NoKC {
 			in.KeyConditionExpression = aws.String(op.KeyCnd)
 		}
+		in.AttributesToGet = v1Strs(op.AttrsToGet)
+		if op.Consistent {
+			in.ConsistentRead = aws.Bool(true)
+		}
+		in.Select = strp(op.Select)
 		if op.Limit > 0 {
 			in.Limit = aws.Int64(int64(op.Limit))
 		}
@@ -254,6 +275,11 @@ func (c *V1) Do(op Op) (out Outcome) {
 		in := &v1ddb.ScanInput{TableName: aws.String(op.Table), FilterExpression: strp(op.Filter), ProjectionExpression: strp(op.Proj),
 			ExpressionAttributeNames: v1Names(op.Names), ExpressionAttributeValues: ItemToV1(op.Values), IndexName: strp(op.Index),
 			ExclusiveStartKey: ItemToV1(op.Start)}
+		in.AttributesToGet = v1Strs(op.AttrsToGet)
+		if op.Consistent {
+			in.ConsistentRead = aws.Bool(true)
+		}
+		in.Select = strp(op.Select)
 		if op.Limit > 0 {
 			in.Limit = aws.Int64(int64(op.Limit))
 		}
